@@ -104,6 +104,37 @@ Definition pos_ok_eof (c : list N) (rep : list N * Z * Z) : Prop :=
          line = spec_line c o /\
          excerpt_spec (spec_content c o) (length (spec_content c o)) ex col
   end.
+(* the same without the two clauses about the AMOUNT of context quoted (the property text does not ask for
+   them; a pipe window legitimately sees only part of the line) *)
+Definition excerpt_ok_w (lc : list N) (k : nat) (ex : list N) (col : Z) : Prop :=
+  let k' := Nat.min k (length lc) in
+  exists pre w r post,
+    lc = pre ++ w ++ r ++ post /\ ex = w ++ r /\ col = swidth w /\
+    length pre + length w <= k' <= length pre + length w + 3 /\
+    length ex <= 64 /\ length w <= 51.
+Definition excerpt_ok_utf8_w (lc : list N) (k : nat) (ex : list N) (col : Z) : Prop :=
+  let k' := Nat.min k (length lc) in
+  exists pre w r post,
+    lc = pre ++ w ++ r ++ post /\ ex = w ++ r /\ col = swidth w /\
+    utf8 pre /\ utf8 w /\ utf8 r /\ utf8 post /\
+    (k' < length lc -> exists e rest, r = e ++ rest /\ wf_enc e = true /\
+                                      length pre + length w <= k' < length pre + length w + length e) /\
+    (k' = length lc -> r = [] /\ post = [] /\ length pre + length w = k') /\
+    length ex <= 64 /\ length w <= 51.
+Definition excerpt_spec_w (lc : list N) (k : nat) (ex : list N) (col : Z) : Prop :=
+  excerpt_ok_w lc k ex col /\ (utf8 lc -> excerpt_ok_utf8_w lc k ex col).
+Definition pos_ok_w (c : list N) (o : nat) (rep : list N * Z * Z) : Prop :=
+  let '(ex, line, col) := rep in
+  line = spec_line c o /\ excerpt_spec_w (spec_content c o) (spec_index c o) ex col.
+Definition pos_ok_eof_w (c : list N) (rep : list N * Z * Z) : Prop :=
+  let '(ex, line, col) := rep in
+  match c with
+  | [] => ex = [] /\ line = 0%Z /\ col = swidth []
+  | _ => let o := length c - 1 in
+         line = spec_line c o /\
+         excerpt_spec_w (spec_content c o) (length (spec_content c o)) ex col
+  end.
+
 End Width.
 
 (* ---- window bookkeeping vocabulary ----------------------------------------------------------- *)
